@@ -134,7 +134,45 @@ class LazySeq:
         return self.have
 
 
+class LazyEqSeq(LazySeq):
+    """A lazy sequence with value semantics, as result-set classes have them: comparing it (``==`` /
+    ``!=``) or asking ``in`` has to produce everything; iterating it walks what subscription gives."""
+
+    def _all(self):
+        self.log.lens += 1
+        while self.log.pull(self.have):
+            self.have += 1
+        return list(range(1, self.have + 1))
+
+    def __eq__(self, other):
+        if self is other:
+            return True
+        try:
+            return self._all() == list(other)
+        except TypeError:
+            return self._all() and False
+
+    def __ne__(self, other):
+        return not self.__eq__(other)
+
+    __hash__ = object.__hash__
+
+    def __contains__(self, x):
+        return x in self._all()
+
+    def __iter__(self):
+        i = 0
+        while True:
+            try:
+                yield self[i]
+            except IndexError:
+                return
+            i += 1
+
+
 KINDS = ('iter', 'gen', 'lazy', 'iterable', 'sized')
+# kinds used by the parts added later (KINDS keeps the rotation of the older parts as it was)
+MORE_KINDS = KINDS + ('lazyeq',)
 
 
 def make(kind, log):
@@ -146,6 +184,9 @@ def make(kind, log):
     if kind == 'lazy':
         log.iters = None
         return LazySeq(log)
+    if kind == 'lazyeq':
+        log.iters = None
+        return LazyEqSeq(log)
     if kind == 'iterable':
         return ReIterable(log)
     if kind == 'sized':
@@ -164,7 +205,9 @@ class OptSites:
     def install(self):
         from DocumentTemplate import DT_In
         from DocumentTemplate import DT_InSV
-        real = DT_InSV.opt
+        real = getattr(DT_InSV, 'opt', None)
+        if real is None:            # renamed by a refactoring: no attribution, the pull log still decides
+            return None
         mon = self
 
         def opt(start, end, size, orphan, sequence):
@@ -183,3 +226,111 @@ class OptSites:
         DT_InSV.opt = opt
         DT_In.opt = opt
         return real
+
+
+# ---------------------------------------------------------------- how the lazy value reaches the tag
+class Holder:
+    """Plain object whose attributes are the values: the client of a render, the object of a
+    ``dtml-with``, the item of an enclosing loop."""
+
+    def __init__(self, **kw):
+        self.__dict__.update(kw)
+
+
+class GetattrHolder:
+    """Object whose attributes are computed by ``__getattr__`` (acquisition-like)."""
+
+    def __init__(self, values):
+        self._values = values
+
+    def __getattr__(self, name):
+        if name.startswith('_'):
+            raise AttributeError(name)
+        try:
+            return self._values[name]
+        except KeyError:
+            raise AttributeError(name)
+
+
+class MethodHolder:
+    """The sequence is what a zero-argument method of the client returns (the namespace calls
+    it at every lookup; it hands out the same lazy object each time)."""
+
+    def __init__(self, seq, **kw):
+        self._seq = seq
+        self.calls = 0
+        self.__dict__.update(kw)
+
+    def seq(self):
+        self.calls += 1
+        return self._seq
+
+
+# route -> (text put in front of the template source, text put behind it)
+ROUTE_WRAP = {
+    'with': ('<dtml-with holder>', '</dtml-with>'),
+    'with_only': ('<dtml-with holder only>', '</dtml-with>'),
+    'with_mapping': ('<dtml-with holder mapping>', '</dtml-with>'),
+    'with_expr': ('<dtml-with "holder">', '</dtml-with>'),
+    'let': ('<dtml-let seq=raw>', '</dtml-let>'),
+    'let_expr': ('<dtml-let seq="raw">', '</dtml-let>'),
+    'item': ('<dtml-in holders>', '</dtml-in>'),
+    'item_mapping': ('<dtml-in holders mapping>', '</dtml-in>'),
+}
+# routes that compile a fresh template per render (values given when the template is created)
+CREATED = ('created', 'created_mapping')
+ROUTES = ('kw', 'client', 'client_getattr', 'client_kw', 'clients', 'method', 'mapping', 'mapping_kw',
+          'with', 'with_only', 'with_mapping', 'with_expr', 'let', 'let_expr', 'item', 'item_mapping',
+          'sub', 'sub_kw', 'sub2') + CREATED
+# routes on which the name of the sequence is an attribute looked up through an instance namespace
+ATTRIBUTE_ROUTES = ('client', 'client_getattr', 'client_kw', 'clients', 'with', 'with_only', 'with_expr',
+                    'item', 'sub', 'sub2')
+
+
+def deliver(route, HTML, template, source, outers, vals, params):
+    """Render with the values ``vals`` (sequence and what lives next to it) and ``params`` (batch
+    parameters) delivered on ``route``.  ``template`` is the compiled template (already wrapped for
+    the routes of ROUTE_WRAP), ``source`` its text (for the created routes), ``outers`` compiled
+    ``<dtml-var inner>`` and ``<dtml-var inner>#<dtml-var inner>`` (the template is rendered as a
+    sub-template, once or twice, in the namespace of the calling one)."""
+    both = dict(vals)
+    both.update(params)
+    if route == 'kw':
+        return template(**both)
+    if route == 'client':
+        return template(Holder(**both))
+    if route == 'client_getattr':
+        return template(GetattrHolder(both))
+    if route == 'client_kw':
+        return template(Holder(**vals), **params)
+    if route == 'clients':
+        return template((Holder(unrelated=1), Holder(**both)))
+    if route == 'method':
+        rest = {k: v for k, v in both.items() if k != 'seq'}
+        return template(MethodHolder(vals['seq'], **rest))
+    if route == 'mapping':
+        return template(None, both)
+    if route == 'mapping_kw':
+        return template(None, dict(vals), **params)
+    if route in ('with', 'with_only', 'with_expr'):
+        return template(holder=Holder(**both))
+    if route == 'with_mapping':
+        return template(holder=both)
+    if route in ('let', 'let_expr'):
+        rest = {k: v for k, v in both.items() if k != 'seq'}
+        return template(raw=vals['seq'], **rest)
+    if route == 'item':
+        return template(holders=[Holder(**both)])
+    if route == 'item_mapping':
+        return template(holders=[both])
+    if route == 'sub':
+        return outers[0](Holder(**both), inner=template)
+    if route == 'sub_kw':
+        return outers[0](inner=template, **both)
+    if route == 'sub2':
+        return outers[1](Holder(**both), inner=template)
+    if route == 'created':
+        return HTML(source, **both)()
+    if route == 'created_mapping':
+        return HTML(source, both)()
+    raise ValueError(route)
